@@ -7,8 +7,14 @@ def gen_iadd(rng):
 
     def one():
         keys = rng.sample(names, rng.randint(0, 4))
+        def hist():
+            return None if rng.random() < 0.3 else {rng.randint(3, 8): rng.randint(1, 4) for _ in range(rng.randint(0, 3))}
         return {"n": rng.randint(0, 50), "paired": rng.choice([None, True, False]), "rc": rng.choice([None, 0, 3, 7]),
-                "filtered": {k: rng.choice([0, 0, 1, 5]) for k in keys}}
+                "filtered": {k: rng.choice([0, 0, 1, 5]) for k in keys},
+                "total_bp": [rng.randint(0, 99), rng.randint(0, 99)],
+                "with_adapters": [rng.choice([None, 0, 4]), rng.choice([None, 2])],
+                "quality_trimmed_bp": [rng.choice([None, 0, 9]), rng.choice([None, 5])],
+                "poly_a": [hist(), hist()]}
     a, b = one(), one()
     if a["paired"] is not None and b["paired"] is not None:
         b["paired"] = a["paired"]
@@ -21,13 +27,20 @@ def _build(d):
     s.n, s.paired, s.reverse_complemented = d["n"], d["paired"], d["rc"]
     for k, v in d["filtered"].items():
         s.filtered[k] = v
+    from collections import defaultdict
+    s.total_bp = list(d["total_bp"])
+    s.with_adapters = list(d["with_adapters"])
+    s.quality_trimmed_bp = list(d["quality_trimmed_bp"])
+    s.poly_a_trimmed_lengths = [None if h is None else defaultdict(int, {int(k): v for k, v in h.items()}) for h in d["poly_a"]]
     return s
 
 
 def call_iadd(inp):
     a, b = _build(inp["a"]), _build(inp["b"])
     a += b
-    return {"n": a.n, "paired": a.paired, "rc": a.reverse_complemented, "filtered": dict(a.filtered)}
+    return {"n": a.n, "paired": a.paired, "rc": a.reverse_complemented, "filtered": dict(a.filtered), "total_bp": list(a.total_bp),
+            "with_adapters": list(a.with_adapters), "quality_trimmed_bp": list(a.quality_trimmed_bp),
+            "poly_a": [None if h is None else {int(k): v for k, v in h.items() if v} for h in a.poly_a_trimmed_lengths]}
 
 
 def check_iadd(inp, res, err):
@@ -47,6 +60,26 @@ def check_iadd(inp, res, err):
     rc = None if a["rc"] is None and b["rc"] is None else (a["rc"] or 0) + (b["rc"] or 0)
     if res["rc"] != rc:
         bad.append("reverse_complemented_counts_add_up")
+
+    def osum(x, y):
+        return None if x is None and y is None else (x or 0) + (y or 0)
+    for i in (0, 1):
+        if res["total_bp"][i] != a["total_bp"][i] + b["total_bp"][i]:
+            bad.append(f"read_{i + 1}_base_totals_add_up")
+        if res["with_adapters"][i] != osum(a["with_adapters"][i], b["with_adapters"][i]) or \
+                res["quality_trimmed_bp"][i] != osum(a["quality_trimmed_bp"][i], b["quality_trimmed_bp"][i]):
+            bad.append(f"read_{i + 1}_reads_with_adapters_and_quality_trimmed_bases_add_up")
+        ha, hb = a["poly_a"][i], b["poly_a"][i]
+        if ha is None and hb is None:
+            want_h = None
+        else:
+            want_h = {}
+            for h in (ha or {}, hb or {}):
+                for k, v in h.items():
+                    want_h[int(k)] = want_h.get(int(k), 0) + v
+            want_h = {k: v for k, v in want_h.items() if v}
+        if res["poly_a"][i] != want_h:
+            bad.append(f"read_{i + 1}_poly_a_histograms_add_pointwise: expected {want_h}, got {res['poly_a'][i]}")
     return bad
 
 
